@@ -27,7 +27,8 @@ type Scanned struct {
 	Offs     []int         // offsets of Toks
 	EOFOff   int
 	ScanErrs int
-	EOFAgain bool // a second Scan after EOF returned EOF at the same position with empty Lit
+	ErrAt    []int // for every scanner error, the index of the token being scanned (len(Toks) = the EOF)
+	EOFAgain bool  // a second Scan after EOF returned EOF at the same position with empty Lit
 }
 
 // Scan runs the real TPL scanner exactly as tpl/parser does (InitEx(file, src, 0, eh, 0)).
@@ -35,7 +36,10 @@ func Scan(src []byte) (sc Scanned) {
 	fset := token.NewFileSet()
 	file := fset.AddFile("", -1, len(src))
 	var s scanner.Scanner
-	s.InitEx(file, src, 0, func(pos token.Position, msg string) { sc.ScanErrs++ }, 0)
+	s.InitEx(file, src, 0, func(pos token.Position, msg string) {
+		sc.ScanErrs++
+		sc.ErrAt = append(sc.ErrAt, len(sc.Toks))
+	}, 0)
 	for i := 0; i <= len(src)+2; i++ {
 		t := s.Scan()
 		if t.Tok == token.EOF {
@@ -49,6 +53,18 @@ func Scan(src []byte) (sc Scanned) {
 	}
 	sc.EOFAgain = false
 	return
+}
+
+// ErrAtField renders the scanner error positions as the driver's `<scanErrAt>` field.
+func (sc *Scanned) ErrAtField() string {
+	if len(sc.ErrAt) == 0 {
+		return "-"
+	}
+	parts := make([]string, len(sc.ErrAt))
+	for i, k := range sc.ErrAt {
+		parts[i] = strconv.Itoa(k)
+	}
+	return strings.Join(parts, ".")
 }
 
 // TokField renders the token list as the driver's `<eofpos>;<tok>,<tok>,…` field.
